@@ -16,7 +16,7 @@ import (
 var (
 	// reGoBuildGen is a regular expression that matches a notation that
 	// indicates the beginning of a convergen block.
-	reGoBuildGen = regexp.MustCompile(`\s*//\s*(go:(generate\b|build convergen\b)|\+build convergen)`)
+	reGoBuildGen = regexp.MustCompile(`^\s*//\s*(go:(generate\b|build convergen\b)|\+build convergen)`)
 	// reConvergen is a regular expression that matches a notation that
 	// indicates the beginning of a convergen block.
 	errAbort = errors.New("abort")
